@@ -263,8 +263,8 @@ impl Prop for C07 {
                 Case { conf, kind, src: InsertSrc::Many { n, key_mod, mul, kpad: 0, vlen: 4 } }
             });
         // the public API without hooks: real 10 MiB clamp, default capacities
-        let public = (prop::sample::select(&MergeKind::ALL[..]), insert_src(tier), any::<bool>(), any::<bool>(), prop::sample::select(vec![1usize, 2, 25])).prop_map(
-            |(kind, src, allow_realloc, stable, max_nb_chunks)| Case {
+        let public = (prop::sample::select(&MergeKind::ALL[..]), insert_src(tier), any::<bool>(), any::<bool>(), prop::sample::select(vec![1usize, 2, 25]), 0u8..6).prop_map(
+            |(kind, src, allow_realloc, stable, max_nb_chunks, order)| Case {
                 conf: SConf {
                     threshold: Threshold::Default,
                     init_cap: None,
@@ -278,6 +278,7 @@ impl Prop for C07 {
                     interval: None,
                     levels: None,
                     creator: CreatorKind::CursorVec,
+                    order,
                 },
                 kind,
                 src,
@@ -300,6 +301,7 @@ impl Prop for C07 {
                     interval: None,
                     levels: None,
                     creator: CreatorKind::CursorVec,
+                    order: 0,
                 },
                 kind,
                 src: InsertSrc::Many { n, key_mod, mul: 1, kpad: 0, vlen: 160 },
